@@ -26,4 +26,9 @@ let () =
       let shares = List.map2 (fun z u -> nts_share q c z u) (zlist_of_tok zs) (zlist_of_tok us) in
       (hex_of_z (nts_combine q shares), out)
     | _ -> failwith "arity");
+  (* unit-level Reconstruct: q, the points "x:y,x:y,..." the function must use (its own share first, then the good shares in QUAL order) -> z *)
+  register "gjkr_reconstruct" (function [q; pts; out] ->
+      let pl = List.map (fun s -> match String.split_on_char ':' s with [x; y] -> (z_of_hex x, z_of_hex y) | _ -> failwith "pt") (String.split_on_char ',' pts) in
+      ((match interp0 (z_of_hex q) pl with Some z -> hex_of_z z | None -> "fail"), out)
+    | _ -> failwith "arity");
   main ()
